@@ -82,8 +82,9 @@ def make_requests(ctx):
         texts.append(gen.render(case, raw))
     for i, t in enumerate(texts):
         v1 = t + f'\nGradient 1, {40 + 3 * i}\n'
+        v1b = t + f'\nGradient 1, {60 + 3 * i}\n'             # same length as v1: only the content differs
         v2 = t + f'\nPlant Lifetime, {11 + i}\nUtilization Factor, 0.8{i}\n'
-        reqs[f'q{i}'] = [t, v1, v2]
+        reqs[f'q{i}'] = [t, v1, v1b, v2]
     # sparse requests: the same kind of input with optional lines removed, so that the run relies on the documented
     # defaults (cross-run state hiding in default objects only shows when a later request does NOT set the parameter)
     for i, t in enumerate(texts[:ctx.pick(3, 6)]):
@@ -121,7 +122,7 @@ def make_history(ctx, reqs, n_calls):
         r = rng.random()
         if r < 0.12:
             k = rng.choice(keys)
-            version[k] = (version[k] + 1) % 3
+            version[k] = (version[k] + 1) % len(reqs[k])
             ops.append({'op': 'rewrite', 'req': k, 'text': reqs[k][version[k]]})
         elif r < 0.2:
             cands = [d for d in range(3) if d not in removed]
